@@ -1297,6 +1297,29 @@ func (t *tr) stmts(list []ast.Stmt) string {
 				}
 			}
 		}
+		// parallel assignment `a, b = x, y` / `a, b := x, y`: all right-hand sides are evaluated first (Go semantics)
+		if len(x.Lhs) == len(x.Rhs) && len(x.Lhs) > 1 && (x.Tok == token.DEFINE || x.Tok == token.ASSIGN) {
+			allIdent := true
+			for _, l := range x.Lhs {
+				if _, ok := l.(*ast.Ident); !ok {
+					allIdent = false
+				}
+			}
+			if allIdent {
+				tmps := []string{}
+				var seq []ast.Stmt
+				for i := range x.Rhs {
+					tmp := fmt.Sprintf("par%d_%d_", t.fresh, i)
+					t.fresh++
+					tmps = append(tmps, tmp)
+					seq = append(seq, &ast.AssignStmt{Lhs: []ast.Expr{ast.NewIdent(tmp)}, Tok: token.DEFINE, Rhs: []ast.Expr{x.Rhs[i]}})
+				}
+				for i, l := range x.Lhs {
+					seq = append(seq, &ast.AssignStmt{Lhs: []ast.Expr{l}, Tok: x.Tok, Rhs: []ast.Expr{ast.NewIdent(tmps[i])}})
+				}
+				return t.stmts(append(seq, rest...))
+			}
+		}
 		// a, b, c := f(args) with f translatable
 		if len(x.Rhs) == 1 && x.Tok == token.DEFINE {
 			if call, ok := x.Rhs[0].(*ast.CallExpr); ok {
@@ -1904,10 +1927,133 @@ func (g *genOut) ensure(from *tr, key string) string {
 	}
 	sp, ok := g.specs[key]
 	if !ok {
-		fail("%s: calls %s, for which there is no translation spec", from.spec.Lean, key)
+		sp = autoSpec(from, key)
+		g.specs[key] = sp
 	}
 	translate(g, from.pkg, sp, key)
 	return g.done[key]
+}
+
+// autoSpec: a helper the translated function calls (an extracted method or function of the same package) gets a spec
+// derived from its Go signature and from the caller's spec: same receiver binder (only for a method on the SAME receiver
+// type), one binder per parameter by its Go type, the caller's receiver-relative leaf rules. Anything else is refused.
+func autoSpec(from *tr, key string) *Spec {
+	fn := from.pkg.funcs[key]
+	if fn == nil || fn.Body == nil {
+		fail("%s: calls %s, which is not a function of the package", from.spec.Lean, key)
+	}
+	useStr := false
+	for _, b := range from.spec.Binders {
+		if strings.Contains(b, ": Str)") {
+			useStr = true
+		}
+	}
+	leanType := func(e ast.Expr) string {
+		switch show(e) {
+		case "string":
+			if useStr {
+				return "Str"
+			}
+			return "String"
+		case "bool":
+			return "Bool"
+		case "int", "int64", "int32", "time.Duration", "time.Time", "bytesize.ByteSize", "ByteSize", "duration.Duration":
+			return "Int"
+		case "rune", "byte":
+			return "Char"
+		case "error":
+			return "Bool"
+		}
+		// a named type of the package: its underlying type
+		for _, f := range from.pkg.files {
+			for _, d := range f.Decls {
+				if gd, ok := d.(*ast.GenDecl); ok && gd.Tok == token.TYPE {
+					for _, sp := range gd.Specs {
+						if ts, ok := sp.(*ast.TypeSpec); ok && ts.Name.Name == show(e) {
+							switch show(ts.Type) {
+							case "string", "bool", "int", "int64", "int32":
+								return leanTypeBasic(show(ts.Type), useStr)
+							}
+						}
+					}
+				}
+			}
+		}
+		fail("%s: calls %s whose signature uses the type %s (no automatic spec)", from.spec.Lean, key, show(e))
+		return ""
+	}
+	sp := &Spec{File: from.spec.File, Func: fn.Name.Name, Lean: from.spec.Lean + "_" + mangle(lowerFirst(fn.Name.Name)), Group: from.spec.Group,
+		Leaves: map[string]string{}, Ignore: from.spec.Ignore, Doc: "helper translated on demand (automatic spec)"}
+	if fn.Recv != nil && len(fn.Recv.List) == 1 {
+		if from.fn == nil || from.fn.Recv == nil || recvTypeName(from.fn.Recv.List[0].Type) != recvTypeName(fn.Recv.List[0].Type) || len(from.spec.Binders) == 0 {
+			fail("%s: calls the method %s of another receiver type (no automatic spec)", from.spec.Lean, key)
+		}
+		sp.Recv = recvTypeName(fn.Recv.List[0].Type)
+		sp.Binders = append(sp.Binders, from.spec.Binders[0])
+		for k, v := range from.spec.Leaves {
+			if strings.HasPrefix(k, "$r") && !regexp.MustCompile(`\$[0-9]`).MatchString(k) {
+				sp.Leaves[k] = v
+			}
+		}
+	}
+	for k, v := range from.spec.Leaves {
+		if !strings.Contains(k, "$") {
+			sp.Leaves[k] = v
+		}
+	}
+	for _, f := range fn.Type.Params.List {
+		for _, n := range f.Names {
+			sp.Binders = append(sp.Binders, "("+mangle(n.Name)+" : "+leanType(f.Type)+")")
+		}
+	}
+	usesClock := false
+	ast.Inspect(fn.Body, func(n ast.Node) bool {
+		if c, ok := n.(*ast.CallExpr); ok {
+			switch show(c.Fun) {
+			case "time.Now", "time.Until", "time.Since":
+				usesClock = true
+			}
+		}
+		return true
+	})
+	if usesClock {
+		sp.Binders = append(sp.Binders, "(now : Int)")
+	}
+	rets := []string{}
+	if fn.Type.Results != nil {
+		for _, f := range fn.Type.Results.List {
+			n := len(f.Names)
+			if n == 0 {
+				n = 1
+			}
+			for i := 0; i < n; i++ {
+				rets = append(rets, leanType(f.Type))
+				if show(f.Type) == "error" {
+					sp.Results = append(sp.Results, "err")
+				} else {
+					sp.Results = append(sp.Results, "val")
+				}
+			}
+		}
+	}
+	if len(rets) == 0 {
+		fail("%s: calls %s, which returns nothing (no automatic spec)", from.spec.Lean, key)
+	}
+	sp.Ret = strings.Join(rets, " × ")
+	return sp
+}
+
+func leanTypeBasic(t string, useStr bool) string {
+	switch t {
+	case "string":
+		if useStr {
+			return "Str"
+		}
+		return "String"
+	case "bool":
+		return "Bool"
+	}
+	return "Int"
 }
 
 func findFuncLit(body *ast.BlockStmt) *ast.FuncLit {
@@ -2037,7 +2183,11 @@ func translate(g *genOut, pkg *pkgInfo, sp *Spec, key string) {
 	pos := fset.Position(fn.Pos())
 	rel := sp.File
 	doc := fmt.Sprintf("/-- translated from `%s` (%s:%d)%s -/\n", key, rel, pos.Line, map[bool]string{true: " — " + sp.Doc, false: ""}[sp.Doc != ""])
-	def := doc + "def " + sp.Lean + " " + strings.Join(sp.Binders, " ") + " : Option (" + sp.Ret + ") :=\n  " + bodyTerm + "\n"
+	attr := ""
+	if strings.HasPrefix(sp.Doc, "helper translated on demand") {
+		attr = "@[simp] " // unfolded by `simp` in the equivalence proofs: an extracted helper is transparent to them
+	}
+	def := doc + attr + "def " + sp.Lean + " " + strings.Join(sp.Binders, " ") + " : Option (" + sp.Ret + ") :=\n  " + bodyTerm + "\n"
 	g.defs = append(g.defs, def)
 	g.order = append(g.order, key)
 }
